@@ -34,8 +34,11 @@ class InfraError(Exception):
 
 
 class Clause:
-    def __init__(self, name, props, text):
+    def __init__(self, name, props, text, only=False):
         self.name = name
+        # only=True: a failure of this (trait) clause inside an implementation counts for the clause's own
+        # properties only, not for the other properties the implementing function is claimed by
+        self.only = only
         self.props = tuple(props)
         # properties a failure of this clause INSIDE AN IMPLEMENTATION counts for (trait clauses of the dependency
         # are counted once, in unit `deps`, but an impl that breaks them breaks these properties)
@@ -625,7 +628,7 @@ def splice_fn(em, toks, fn, fc, ctx, marks):
             spec.append('\n    ensures')
             for c in ens:
                 cid = '%s#%s' % (ctx, c.name)
-                marks.append({'id': cid, 'fn': ctx, 'clause': c.name, 'props': list(c.props), 'iprops': list(getattr(c, 'iprops', c.props)), 'text': c.text})
+                marks.append({'id': cid, 'fn': ctx, 'clause': c.name, 'props': list(c.props), 'iprops': list(getattr(c, 'iprops', c.props)), 'only': getattr(c, 'only', False), 'text': c.text})
                 spec.append('\n        /*@c:%s*/ %s,' % (cid, c.text))
             spec.append('\n    /*@c:-*/')
         if fc.extra_spec:
